@@ -1,6 +1,7 @@
 // Harness-side API: every function below is implemented by the encoder (engine/iremit.py MODELS) and by
 // engine/vpmodels.h; none of them is a context-switch point except vp_point().
 #pragma once
+#define VP_INLINE static inline __attribute__((always_inline))
 extern "C" {
 void vp_assert(bool c, int id) noexcept;   // property assertion (id shows up in the cbmc property name)
 void vp_assume(bool c) noexcept;
@@ -18,5 +19,6 @@ void vp_cover(int bit) noexcept;           // witness coverage bits
 void vp_log(int tag, int v) noexcept;      // observation log (translation validation)
 int vp_mutex_owner(const void* m) noexcept;     // model state of a pthread mutex: 0 free, else owner id + 1
 int vp_rw_state(const void* l) noexcept;        // model state of a pthread rwlock: 0x100 writer | reader bitmask
-unsigned vp_blockcount() noexcept;         // how often this thread ended a context blocked
+unsigned vp_blockcount() noexcept;
+unsigned vp_cvwaits() noexcept;             // condition-variable waits this thread has begun         // how often this thread ended a context blocked
 }
